@@ -95,33 +95,13 @@ def project(case, outs):
     # keep only the last probe of each connection (statistics) to keep the trace small
     if outs == [[-999]]:
         return outs
+    outs_x = list(enumerate(S.with_unprotected_probes(outs)))
     last = {}
-    for i, r in enumerate(outs):
+    for i, r in outs_x:
         if r[0] == 8:
             last[(r[2], r[3])] = i
     keep = set(last.values())
-    # around every datagram that consists of an unprotected packet (Retry 16 / Version Negotiation 64)
-    # and was handed to a connection: that connection's latest probe before it (re-tagged 19) and
-    # the probe taken right after it (tag 18)
-    lastprobe, extra_before, keep18, want = {}, {}, set(), None
-    for i, r in enumerate(outs):
-        if r[0] in (8, 18):
-            if r[0] == 18 and want == (r[2], r[3]):
-                keep18.add(i)
-                want = None
-            lastprobe[(r[2], r[3])] = r
-        elif r[0] == 2 and len(r) > 10 and r[5] == 1 and r[6] >= 0 and (r[10] & 80) and not (r[10] & 46):
-            kk = (r[2], r[6])
-            if kk in lastprobe:
-                extra_before[i] = [19] + lastprobe[kk][1:]
-                want = kk
-    res0 = []
-    for i, r in enumerate(outs):
-        if i in extra_before:
-            res0.append((i, extra_before[i]))
-        res0.append((i, r))
-    outs_x = res0
-    res = [r for i, r in outs_x if (r[0] in (2, 4, 11, 19)) or (r[0] == 18 and i in keep18) or (r[0] == 5 and r[4] == 1) or (r[0] == 3 and r[4] in (11, 20, 21)) or (r[0] == 13 and r[2] == 11) or (r[0] == 8 and i in keep)]
+    res = [r for i, r in outs_x if (r[0] in (2, 4, 11, 19)) or r[0] == 18 or (r[0] == 5 and r[4] == 1) or (r[0] == 3 and r[4] in (11, 20, 21)) or (r[0] == 13 and r[2] == 11) or (r[0] == 8 and i in keep)]
     res.sort(key=lambda r: 0)  # stable
     probes = [r for r in res if r[0] == 8]
     others = [r for r in res if r[0] != 8]
